@@ -23,6 +23,20 @@ CLAIMS = {
  "C14": dict(text="Mon_C14 (null phase, enabled classes, one outstanding, retry count, retry delay, disable, deferred READ answered, other requests answered at once) in lock-step "
                   "with Outstation.tla; time is an input (Advance to each timer +5 ms / small steps); replayed behaviours validated by TLC.",
              ref="§7 C14", technique="TLA+ model checking (TLC) + trace validation of replayed behaviours"),
+ "C04": dict(text="Outstation.tla models SELECT/OPERATE/DIRECT_OPERATE with the code's SelectState (sequence, fragment id, object hash, age) and every other fragment kind in between "
+                  "(confirms, READs, other masters, broadcasts, rejected fragments, retransmissions), time advanced around the select timeout, reconnects; Mon_C04 derives must / must-not "
+                  "from the received-fragment window and compares with ControlHandler callbacks and echoed statuses. Replayed behaviours validated by TLC.",
+             ref="§7 C04", technique="TLA+ model checking (TLC) + trace validation of replayed behaviours"),
+ "C07": dict(text="Application half: fragments from another master / by broadcast / malformed in every session state on Outstation.tla with Mon_C07 (nothing executed for foreign masters, nothing "
+                  "transmitted in reply to a broadcast). The link-layer half (frame addressing, secondary station) is added with the link model.",
+             ref="§7 C07", technique="TLA+ model checking (TLC) + trace validation of replayed behaviours"),
+ "C11": dict(text="Mon_C11 mirrors the database from the update calls, snapshots it when the answer to a READ starts and checks the whole fragment series (exactly-once, snapshot values, variation, "
+                  "FIR/FIN/SEQ/CON, next fragment only after the matching confirm, series ended by new request/timeout/disconnect) in lock-step with Outstation.tla (frozen copies, selection queue, byte budget); "
+                  "replayed behaviours validated by TLC.",
+             ref="§7 C11", technique="TLA+ model checking (TLC) + trace validation of replayed behaviours"),
+ "C12": dict(text="Mon_C12 pairs every transmitted fragment with its trigger (sequence correlation incl. deferred READs and series, UNS bit, unsolicited shape and numbering, no-reply functions, size, "
+                  "well-formedness by the independent codec, rejected requests answered with an IIN2 error) in lock-step with Outstation.tla over both input alphabets; replayed behaviours validated by TLC.",
+             ref="§7 C12", technique="TLA+ model checking (TLC) + trace validation of replayed behaviours"),
 }
 
 def main():
@@ -46,7 +60,7 @@ def main():
         })
     na = [{"property_id": p, "reason": NA.get(p, "check not built yet (work in progress)")} for p in PROPS if p not in CLAIMS]
     m = {"version": 1,
-         "setup_cmd": "cd /verif/harness && cargo build --offline 2>&1 | tail -2 && cd /verif/spec && for f in Outstation.tla EvLedger.tla Mon_C03.tla Mon_C13.tla Mon_C05.tla Mon_C14.tla; do tla-sany $f > /dev/null || exit 1; done",
+         "setup_cmd": "cd /verif/harness && cargo build --offline 2>&1 | tail -2 && cd /verif/spec && for f in Trace_Outstation.tla TM_C03.tla TM_C04.tla TM_C05.tla TM_C07.tla TM_C11.tla TM_C12.tla TM_C13.tla TM_C14.tla; do tla-sany $f > /dev/null || exit 1; done",
          "hooks": {"guard": "dnp3_verif",
                    "enable": "rustflags --cfg dnp3_verif in /verif/harness/.cargo/config.toml (the harness crate has a path dependency on /repo/dnp3, default-features off)",
                    "baseline_off_cmd": "cd /repo && cargo test --workspace --no-fail-fast --offline",
